@@ -13,9 +13,11 @@ go test -vet=off -count=1 ./... > $D/suite.log 2>&1; rc_suite=$?
 ( eval "$cmd" ) > $D/demo_mut.log 2>&1; rc_mut=$?
 git checkout -q -- .
 git status --short | grep -v mutants | head -3
-# demo commands often end with a cleanup step, so judge from the go test output
+# go-test demo commands often end with a cleanup step, so judge those from the go test output
+if echo "$cmd" | grep -q "go test"; then
 grep -qE "^(--- )?FAIL|^panic:|timed out" $D/demo_clean.log && rc_clean=1
 grep -qE "^(--- )?FAIL|^panic:|timed out" $D/demo_mut.log && rc_mut=1
 grep -qE "^ok|^PASS" $D/demo_clean.log || rc_clean=1
+fi
 echo "clean_demo_rc=$rc_clean build_rc=$rc_build suite_rc=$rc_suite mutant_demo_rc=$rc_mut"
 if [ $rc_clean = 0 ] && [ $rc_build = 0 ] && [ $rc_suite = 0 ] && [ $rc_mut != 0 ]; then echo CONFIRMED; else echo NOT-CONFIRMED; fi
